@@ -8,18 +8,20 @@ Both read paths are modelled over one `World` (`B6.Model.WorldRead`): the in-mem
 (`FeatureReferencesByID` closure, `traverse`) and the compact world's (`findPathsByPoint`, `FindReferences`,
 `FindRelationsByFeature`, `FindAreasByPoint`, `Traverse`), the latter reading the records the compact builder
 writes from *every* source path and area.  The model mirrors the code **after** the C02 fixes
-(fixes/C02-*.patch) and C37's fix of `BasicWorldBuilder.Finish`.
+(fixes/C02-*.patch, including C02-compact-references-transitive) and C37's fix of `BasicWorldBuilder.Finish`.
 
-Theorems, for every world satisfying the two structural invariants that `build` establishes
-(`build_wellTyped`, `build_consistent`) — no bound on the number of features:
+Theorems, for every world satisfying the structural invariants that `build` establishes
+(`build_wellTyped`, `build_consistent`, `build_uniqueKept`, `build_typed`) — no bound on the number of features:
 
-* `references_equiv` — the paths through a point: same id set;
-* `areas_by_point_equiv` — the areas with a path through a point: same id set;
-* `references_equiv_partial`, `relations_by_feature_equiv_partial` — `FindReferences` (any type filter) and
-  `FindRelationsByFeature`: the compact answer is always contained in the in-memory answer
-  (`compact_subset_basic`), and the two are equal under the hypothesis `oneLevel`.  The hypothesis is
-  needed: `references_oneLevel_counterexample` (a relation of a path through the point) — recorded as the
-  finding `compact-references-partial`, whose class predicate is `oneLevel` negated, literally;
+* `direct_equiv`, `closure_equiv` — one step of the compact world's `findReferrers` (paths of a point, areas of a
+  path, relations recorded on the feature) finds exactly the direct referrers of the in-memory references index,
+  and the two breadth-first closures reach the same ids; hence
+* `references_equiv` — `FindReferences` with any type filter, `relations_by_feature_equiv` —
+  `FindRelationsByFeature`: same id sets, for every id that **has a record** (`hasRecord`: a feature, or any point
+  id). The hypothesis is needed: `references_absent_counterexample` (a relation listing a way that does not
+  exist: the in-memory index is keyed by id and answers, the compact world has no record to read) — the finding
+  `compact-referrers-of-absent-id`, whose class predicate is `hasRecord` negated, literally;
+* `areas_by_point_equiv` — `FindAreasByPoint`: same areas;
 * `find_equiv`, `has_equiv`, `location_equiv` — `FindFeatureByID` / `HasFeatureWithID` / `FindLocationByID`: the
   in-memory id map and the compact per-type blocks answer alike; `ids_equiv` — the compact `EachFeature` order
   (blocks, buckets, ids sorted per bucket) is a permutation of the in-memory id map, for any bucket count;
@@ -141,28 +143,17 @@ theorem kept_path_iff (w : World) (hc : Consistent w) (x y : Id) :
     subst this
     exact ⟨q', hq', by simpa using (hrefs x).mpr hx, hid⟩
 
-/-! ## the paths through a point -/
-
-/-- `FindReferences(point, FeatureTypePath)`: the two worlds return the same paths. -/
-theorem references_equiv (w : World) (hw : WellTyped w) (hc : Consistent w) (x : Id) (hx : x.t = .point) (y : Id) :
-    y ∈ refsB w x [.path] ↔ y ∈ refsC w x [.path] := by
-  have hB : y ∈ refsB w x [.path] ↔ (y ∈ closure w x ∧ y.t = .path) := by
-    simp [refsB, List.mem_filter]
-  have hC : y ∈ refsC w x [.path] ↔ (y ∈ pointPaths w x ∧ pathExists w y = true) := by
-    simp [refsC, hx, findPathsByPoint, List.mem_filter, mem_dedup]
-  rw [hB, hC, closure_paths w hw, kept_path_iff w hc]
-
 /-! ## FindReferences / FindRelationsByFeature -/
 
-theorem mem_relsC (w : World) (x y : Id) :
-    y ∈ relsC w x ↔ hasFeature w x = true ∧ ∃ r ∈ w.relations, (r.members.any fun m => m.1 = x) = true ∧ r.id = y := by
-  unfold relsC
-  by_cases h : hasFeature w x = true
+theorem mem_relsDirectC (w : World) (x y : Id) :
+    y ∈ relsDirectC w x ↔ hasRecord w x = true ∧ ∃ r ∈ w.relations, (r.members.any fun m => m.1 = x) = true ∧ r.id = y := by
+  unfold relsDirectC
+  by_cases h : hasRecord w x = true
   · simp only [h, Bool.not_true, Bool.false_eq_true, ite_false, mem_dedup, List.mem_map, List.mem_filter, true_and]
     constructor
     · rintro ⟨r, ⟨h1, h2⟩, h3⟩; exact ⟨r, h1, h2, h3⟩
     · rintro ⟨r, h1, h2, h3⟩; exact ⟨r, ⟨h1, h2⟩, h3⟩
-  · have h' : hasFeature w x = false := by simpa using h
+  · have h' : hasRecord w x = false := by simpa using h
     simp [h']
 
 /-- second level of the closure: a referrer of a direct referrer is found -/
@@ -182,7 +173,7 @@ theorem direct2_subset_closure (w : World) (x z y : Id) (hz : z ∈ directReferr
   · generalize hnew : dedup ((List.flatMap (directReferrers w) [x]).filter fun y => !([] : List Id).contains y) = new1 at hz1
     simp only [List.nil_append]
     by_cases hyn : y ∈ new1
-    · exact seen_subset_expand w _ _ _ y hyn
+    · exact seen_subset_expand _ _ _ _ y hyn
     · unfold expand
       simp only
       have hy2 : y ∈ dedup ((List.flatMap (directReferrers w) new1).filter fun y => !new1.contains y) := by
@@ -193,7 +184,7 @@ theorem direct2_subset_closure (w : World) (x z y : Id) (hz : z ∈ directReferr
       · rename_i he
         have hne := List.isEmpty_iff.mp he
         rw [hne] at hy2; simp at hy2
-      · exact seen_subset_expand w _ _ _ y (List.mem_append_right _ hy2)
+      · exact seen_subset_expand _ _ _ _ y (List.mem_append_right _ hy2)
 
 theorem mem_allIds_of_path (w : World) (q : Path) (hq : q ∈ w.paths) : 1 ≤ (allIds w).length := by
   have : q.id ∈ allIds w := by
@@ -272,59 +263,113 @@ theorem areas_by_point_equiv (w : World) (hw : WellTyped w) (hc : Consistent w) 
     obtain ⟨q, hq, hqx, hqid⟩ := (kept_path_iff w hc x pid).mpr ⟨hp1, hp2⟩
     exact ⟨a, ha, rfl, q, hq, hqx, by rw [hqid]; exact hap⟩
 
-/-- the compact world never returns a referrer the in-memory world does not return -/
-theorem compact_subset_basic (w : World) (hw : WellTyped w) (hc : Consistent w) (x : Id) (ts : List FT) (y : Id)
-    (h : y ∈ refsC w x ts) : y ∈ refsB w x ts := by
-  simp only [refsC, List.mem_append] at h
-  simp only [refsB, List.mem_filter]
-  rcases h with (h | h) | h
-  · -- a path of the point
-    by_cases hcond : (x.t = .point && (ts.isEmpty || ts.contains .path)) = true
-    · rw [if_pos hcond] at h
-      simp only [List.mem_filter, findPathsByPoint, mem_dedup] at h
-      obtain ⟨q, hq, hqx, hqid⟩ := (kept_path_iff w hc x y).mpr h
-      have := (closure_paths w hw x y).mpr ⟨q, hq, hqx, hqid⟩
-      refine ⟨this.1, ?_⟩
-      rw [this.2]
-      simp only [Bool.and_eq_true, decide_eq_true_eq] at hcond
-      exact hcond.2
-    · rw [if_neg hcond] at h; exact absurd h (by simp)
-  · -- a direct relation
-    by_cases hcond : (ts.isEmpty || ts.contains .relation) = true
-    · rw [if_pos hcond] at h
-      obtain ⟨_, r, hr, hrx, hrid⟩ := (mem_relsC w x y).mp h
-      refine ⟨direct_subset_closure w x y ((mem_directReferrers w x y).mpr (Or.inr (Or.inr ⟨r, hr, hrx, hrid⟩))), ?_⟩
-      rw [← hrid, hw.relations r hr]; exact hcond
-    · rw [if_neg hcond] at h; exact absurd h (by simp)
-  · -- an area of the point
-    by_cases hcond : (x.t = .point && (ts.isEmpty || ts.contains .area)) = true
-    · rw [if_pos hcond] at h
-      simp only [Bool.and_eq_true, decide_eq_true_eq] at hcond
-      have := (areas_by_point_equiv w hw hc x hcond.1 y).mpr h
-      simp only [areasB, refsB, List.mem_filter] at this
-      refine ⟨this.1, ?_⟩
-      have ht : y.t = .area := by simpa using this.2
-      rw [ht]; exact hcond.2
-    · rw [if_neg hcond] at h; exact absurd h (by simp)
+theorem hasFeature_of_kept (w : World) (hw : WellTyped w) (z y : Id) (h : y ∈ directReferrers w z) : hasFeature w y = true := by
+  rcases (mem_directReferrers w z y).mp h with ⟨q, hq, _, rfl⟩ | ⟨a, ha, _, rfl⟩ | ⟨r, hr, _, rfl⟩
+  · simp only [hasFeature, (hw.paths q hq).1, List.any_eq_true]; exact ⟨q, hq, by simp⟩
+  · simp only [hasFeature, (hw.areas a ha).1, List.any_eq_true]; exact ⟨a, ha, by simp⟩
+  · simp only [hasFeature, hw.relations r hr, List.any_eq_true]; exact ⟨r, hr, by simp⟩
 
-/-- `FindReferences` with any type filter: equal id sets whenever the in-memory answer has no referrer
-beyond the compact world's one-level lookup. -/
-theorem references_equiv_partial (w : World) (hw : WellTyped w) (hc : Consistent w) (x : Id) (ts : List FT)
-    (h1 : oneLevel w x ts = true) (y : Id) : y ∈ refsB w x ts ↔ y ∈ refsC w x ts := by
-  constructor
-  · intro hy
-    have := List.all_eq_true.mp h1 y hy
-    simpa using this
-  · exact compact_subset_basic w hw hc x ts y
+theorem mem_areasOfPathC (w : World) (z y : Id) :
+    y ∈ areasOfPathC w z ↔ pathExists w z = true ∧
+      (∃ a ∈ w.srcAreas, (a.polys.any fun ids => ids.contains z) = true ∧ a.id = y) ∧ (w.areas.any (·.id = y)) = true := by
+  unfold areasOfPathC
+  by_cases h : pathExists w z = true
+  · simp only [h, Bool.not_true, Bool.false_eq_true, ite_false, List.mem_filter, mem_dedup, List.mem_map, true_and]
+    constructor
+    · rintro ⟨⟨a, ⟨h1, h2⟩, h3⟩, h4⟩; exact ⟨⟨a, h1, h2, h3⟩, h4⟩
+    · rintro ⟨⟨a, h1, h2, h3⟩, h4⟩; exact ⟨⟨a, ⟨h1, h2⟩, h3⟩, h4⟩
+  · have h' : pathExists w z = false := by simpa using h
+    simp [h']
 
-theorem mem_refsC_relation (w : World) (x y : Id) : y ∈ refsC w x [.relation] ↔ y ∈ relsC w x := by
-  simp [refsC]
+/-- **one step agrees**: for an id that has a record, the features the compact world finds from its records are
+exactly the direct referrers of the in-memory world's index. -/
+theorem direct_equiv (w : World) (hw : WellTyped w) (hc : Consistent w) (z : Id) (hz : hasRecord w z = true) (y : Id) :
+    y ∈ directReferrers w z ↔ y ∈ directC w z := by
+  have hrel : (∃ r ∈ w.relations, (r.members.any fun m => m.1 = z) = true ∧ r.id = y) ↔ y ∈ relsDirectC w z := by
+    rw [mem_relsDirectC]; simp [hz]
+  have noPathIn : ∀ a ∈ w.areas, (a.polys.any fun ids => ids.contains z) = true → z.t = .path := by
+    intro a ha h
+    rw [List.any_eq_true] at h
+    obtain ⟨ids, hids, hz'⟩ := h
+    exact (hw.areas a ha).2 ids hids z (by simpa using hz')
+  have noPointIn : ∀ q ∈ w.paths, q.refs.contains z = true → z.t = .point :=
+    fun q hq h => (hw.paths q hq).2 z (by simpa using h)
+  rw [mem_directReferrers]
+  unfold directC
+  simp only [List.mem_append]
+  cases hzt : z.t
+  · -- a point: its paths and its relations
+    simp only [ite_true, reduceCtorEq, ite_false, List.not_mem_nil, or_false, List.mem_filter, findPathsByPoint, mem_dedup]
+    rw [← hrel, kept_path_iff w hc z y]
+    constructor
+    · rintro (h | ⟨a, ha, haz, _⟩ | h)
+      · exact Or.inl h
+      · have := noPathIn a ha haz; rw [hzt] at this; simp at this
+      · exact Or.inr h
+    · rintro (h | h)
+      · exact Or.inl h
+      · exact Or.inr (Or.inr h)
+  · -- a path: its areas and its relations
+    have hpe : pathExists w z = true := by
+      simpa [hasRecord, hasFeature, hzt, pathExists] using hz
+    simp only [reduceCtorEq, ite_false, ite_true, List.not_mem_nil, false_or]
+    rw [← hrel, mem_areasOfPathC]
+    constructor
+    · rintro (⟨q, hq, hqz, _⟩ | ⟨a, ha, haz, rfl⟩ | h)
+      · have := noPointIn q hq hqz; rw [hzt] at this; simp at this
+      · refine Or.inl ⟨hpe, ⟨a, hc.areaFromSource a ha, haz, rfl⟩, ?_⟩
+        rw [List.any_eq_true]; exact ⟨a, ha, by simp⟩
+      · exact Or.inr h
+    · rintro (⟨_, ⟨a', ha', haz, rfl⟩, hex⟩ | h)
+      · rw [List.any_eq_true] at hex
+        obtain ⟨a, ha, haid⟩ := hex
+        have haid' : a.id = a'.id := by simpa using haid
+        have : a = a' := unique_by_id (·.id) w.srcAreas hc.uniqueAreas a a' (hc.areaFromSource a ha) ha' haid'
+        subst this
+        exact Or.inr (Or.inl ⟨a, ha, haz, rfl⟩)
+      · exact Or.inr (Or.inr h)
+  · -- an area: its relations
+    simp only [reduceCtorEq, ite_false, List.not_mem_nil, false_or]
+    rw [← hrel]
+    constructor
+    · rintro (⟨q, hq, hqz, _⟩ | ⟨a, ha, haz, _⟩ | h)
+      · have := noPointIn q hq hqz; rw [hzt] at this; simp at this
+      · have := noPathIn a ha haz; rw [hzt] at this; simp at this
+      · exact h
+    · intro h; exact Or.inr (Or.inr h)
+  · -- a relation: its relations
+    simp only [reduceCtorEq, ite_false, List.not_mem_nil, false_or]
+    rw [← hrel]
+    constructor
+    · rintro (⟨q, hq, hqz, _⟩ | ⟨a, ha, haz, _⟩ | h)
+      · have := noPointIn q hq hqz; rw [hzt] at this; simp at this
+      · have := noPathIn a ha haz; rw [hzt] at this; simp at this
+      · exact h
+    · intro h; exact Or.inr (Or.inr h)
 
-/-- `FindRelationsByFeature`: equal id sets under the same hypothesis. -/
-theorem relations_by_feature_equiv_partial (w : World) (hw : WellTyped w) (hc : Consistent w) (x : Id)
-    (h1 : oneLevel w x [.relation] = true) (y : Id) : y ∈ relsB w x ↔ y ∈ relsC w x := by
-  rw [← mem_refsC_relation]
-  exact references_equiv_partial w hw hc x [.relation] h1 y
+/-- **the two closures agree**: from an id that has a record, the compact world's worklist over its records
+reaches exactly what the in-memory world's references index reaches. -/
+theorem closure_equiv (w : World) (hw : WellTyped w) (hc : Consistent w) (x : Id) (hx : hasRecord w x = true) (y : Id) :
+    y ∈ closure w x ↔ y ∈ closureC w x := by
+  unfold closure closureC
+  apply expand_congr (directReferrers w) (directC w) (fun z => hasRecord w z = true)
+  · intro z _ y hy
+    simp [hasRecord, hasFeature_of_kept w hw z y hy]
+  · intro z hz y; exact direct_equiv w hw hc z hz y
+  · intro z hz; simp only [List.mem_singleton] at hz; rw [hz]; exact hx
+  · intro y; rfl
+  · intro y; rfl
+
+/-- **`FindReferences`, any type filter**: same id set in both worlds, for every id that has a record (a feature,
+or any point id). -/
+theorem references_equiv (w : World) (hw : WellTyped w) (hc : Consistent w) (x : Id) (hx : hasRecord w x = true)
+    (ts : List FT) (y : Id) : y ∈ refsB w x ts ↔ y ∈ refsC w x ts := by
+  simp only [refsB, refsC, List.mem_filter, closure_equiv w hw hc x hx y]
+
+/-- **`FindRelationsByFeature`**: same id set in both worlds, for every id that has a record. -/
+theorem relations_by_feature_equiv (w : World) (hw : WellTyped w) (hc : Consistent w) (x : Id)
+    (hx : hasRecord w x = true) (y : Id) : y ∈ relsB w x ↔ y ∈ relsC w x :=
+  references_equiv w hw hc x hx [.relation] y
 
 /-! ## the worlds `build` produces satisfy the invariants -/
 
@@ -912,12 +957,19 @@ example : findB (build demo) (wy 10) = findC (build demo) (wy 10) ∧ (findC (bu
     locB (build demo) (n 2) = some "2" ∧ locC (build demo) (n 2) = some "2" ∧
     idsC (build demo) 4 ≠ idsB (build demo) := by decide
 
-example : oneLevel (build demo) (wy 11) [.relation] = false ∧ oneLevel (build demo) (⟨.relation, 1, 50⟩) [.relation] = true := by decide
+example : refsB (build demo) (n 4) [] = refsC (build demo) (n 4) [] ∧
+    refsC (build demo) (n 4) [] = [wy 11, ⟨.relation, 1, 50⟩, ⟨.relation, 1, 51⟩] ∧
+    relsC (build demo) (n 1) = [⟨.relation, 1, 50⟩, ⟨.relation, 1, 51⟩] ∧ hasRecord (build demo) (n 9) = true := by decide
 
-/-- **the hypothesis `oneLevel` is needed**: relation 50 contains way 11, which passes through point 4. The
-in-memory world's `FindRelationsByFeature(point 4)` returns relations 50 and 51, the compact world's returns
-nothing (finding `compact-references-partial`). -/
-theorem references_oneLevel_counterexample :
-    relsB (build demo) (n 4) = [⟨.relation, 1, 50⟩, ⟨.relation, 1, 51⟩] ∧ relsC (build demo) (n 4) = [] := by decide
+/-- a relation over a way that does not exist -/
+def demoAbsent : Source := demo ++ [.relation { id := ⟨.relation, 1, 52⟩, members := [(wy 14, "")], tags := [] }]
+
+/-- **the hypothesis `hasRecord` is needed**: way 14 does not exist but relation 52 lists it. The in-memory world's
+references index is keyed by id whether or not the feature exists and returns relation 52; the compact world
+keeps the back-references on the member's own record, and there is none (finding
+`compact-referrers-of-absent-id`). -/
+theorem references_absent_counterexample :
+    hasRecord (build demoAbsent) (wy 14) = false ∧
+    relsB (build demoAbsent) (wy 14) = [⟨.relation, 1, 52⟩] ∧ relsC (build demoAbsent) (wy 14) = [] := by decide
 
 end B6.Props.C02
